@@ -4,6 +4,7 @@ import (
 	"encoding/json"
 	"fmt"
 	"net"
+	"os"
 	"time"
 
 	"github.com/jwhited/corebgp"
@@ -73,10 +74,26 @@ func c06Run(cs c06Case, ch vrt.Chooser, trace bool) (*world.World, *vrt.Exec, *c
 			return nil
 		}
 		pl.OnEst = func(p *world.Plugin, s int, wr corebgp.UpdateMessageWriter) {
-			if cs.Writes == "none" || H == 0 && cs.Writes != "burst" {
+			if cs.Writes == "none" || H == 0 && cs.Writes != "burst" || H%3 != 0 && cs.Writes == "at-tick" {
 				return
 			}
 			vrt.GoWorld("local-writer", func() {
+				var atStep int
+				if n, _ := fmt.Sscanf(cs.Writes, "at-step:%d", &atStep); n == 1 {
+					// one write when the execution has made exactly that many steps (swept over the steps around
+					// the first periodic KEEPALIVE): the write lands inside the FSM's keepalive path at no cost in
+					// schedule deviations
+					if vrt.WaitStep(atStep) {
+						wr.WriteUpdate([]byte{0xee}) // nolint: errcheck
+					}
+					return
+				}
+				if cs.Writes == "probe-steps" {
+					// baseline: how many steps has the execution made just before the first KEEPALIVE is due
+					vrt.Sleep(H/3 - time.Nanosecond)
+					c06ProbeSteps = vrt.Cur().Steps()
+					return
+				}
 				switch cs.Writes {
 				case "quarter":
 					for i := 0; i < 14; i++ {
@@ -87,6 +104,15 @@ func c06Run(cs c06Case, ch vrt.Chooser, trace bool) (*world.World, *vrt.Exec, *c
 					}
 				case "burst":
 					for i := 0; i < 3; i++ {
+						if wr.WriteUpdate([]byte{byte(i)}) != nil {
+							return
+						}
+					}
+				case "at-tick":
+					// one write at the very instant the first periodic KEEPALIVE is due, one at the second,
+					// then nothing: the two paths that restart the keepalive timer meet
+					for i := 0; i < 2; i++ {
+						vrt.Sleep(H / 3)
 						if wr.WriteUpdate([]byte{byte(i)}) != nil {
 							return
 						}
@@ -413,7 +439,7 @@ func c06Judge(cs c06Case, w *world.World, e *vrt.Exec, o *c06Obs) (string, strin
 
 var c06Holds = []int{0, 3, 4, 9, 10, 30, 90, 65535}
 var c06Traffic = []string{"silent", "ka-third", "ka-just-before", "ka-at-expiry", "upd-half", "alternate", "silent-openconfirm", "upd-slow-handler"}
-var c06Writes = []string{"none", "quarter", "burst"}
+var c06Writes = []string{"none", "quarter", "burst", "at-tick"}
 
 func c06Eval(c *harness.Ctx, cs c06Case) {
 	w, e, o := c06Run(cs, nil, false)
@@ -513,10 +539,26 @@ func c06Check(c *harness.Ctx) {
 	if th {
 		bound = 2
 	}
+	for i, s := range c06AtStepScenarios(bound) {
+		if !c.Mine(i) {
+			continue
+		}
+		if c.Expired() {
+			return
+		}
+		if !exploreScn(c, "C06", s) {
+			return
+		}
+	}
 	k := 0
-	for _, pair := range [][2]int{{3, 90}, {9, 3}, {0, 90}, {90, 0}} {
+	for _, pair := range [][2]int{{3, 90}, {9, 3}, {0, 90}, {90, 0}, {9, 90}} {
 		for _, tr := range c06Traffic {
-			for _, wr := range []string{"none", "quarter"} {
+			for _, wr := range []string{"none", "quarter", "at-tick"} {
+				// at-tick with hold 9: two missed intervals (6 s) exceed the tolerated gap (3 + 1 s); with hold 3 they
+				// would not (2 s = 1 + 1 s)
+				if (wr == "at-tick") != (pair == [2]int{9, 90}) || wr == "at-tick" && tr != "ka-third" && tr != "upd-half" {
+					continue
+				}
 				k++
 				if !c.Mine(k) {
 					continue
@@ -531,6 +573,40 @@ func c06Check(c *harness.Ctx) {
 			}
 		}
 	}
+}
+
+// c06ProbeSteps is set by the "probe-steps" baseline run.
+var c06ProbeSteps int
+
+// c06AtStepScenarios: hold 9 (keepalive every 3 s), the remote sends KEEPALIVEs every 3 s, and the plugin
+// writes ONE UPDATE at step j of the execution, for every j in a window that starts just before the first
+// periodic KEEPALIVE is due and covers the FSM's whole keepalive path. Afterwards corebgp must not be
+// silent for more than H/3 + 1 s.
+func c06AtStepScenarios(bound int) []*Scn {
+	base := c06Case{Local: 9, Remote: 90, Traffic: "ka-third", Writes: "probe-steps", Inbound: true, Prev: -1}
+	c06ProbeSteps = 0
+	_, e, _ := c06Run(base, &vrt.ReplayChooser{}, false) // with a chooser: the plugin callbacks yield, as in the explored runs
+	e.Finish()
+	s0 := c06ProbeSteps
+	if os.Getenv("VERIF_DEBUG") != "" {
+		fmt.Fprintln(os.Stderr, "c06 at-step: s0 =", s0)
+	}
+	if s0 == 0 {
+		return nil
+	}
+	var out []*Scn
+	for j := s0 - 8; j <= s0+30; j++ {
+		cs := base
+		cs.Writes = fmt.Sprintf("at-step:%d", j)
+		b := bound
+		if j >= s0-6 && j <= s0+6 && b < 2 {
+			// the steps of the keepalive path itself (tick received, KEEPALIVE written, timer restarted): the
+			// write still has to overtake the FSM to get its own restart in first
+			b = 2
+		}
+		out = append(out, c06Scn(cs, b))
+	}
+	return out
 }
 
 func c06Scn(cs c06Case, bound int) *Scn {
